@@ -256,9 +256,13 @@ func Equivalent(impl, spec *BExpr) (diff string, n int, err error) {
 // PredCompiler compiles Go boolean expressions to BExpr.
 type PredCompiler struct {
 	P      *Prog
+	Sticky bool // keep the numbering of local variables across CompileIn calls
 	locals map[types.Object]string
 	nLocal int
 }
+
+// ResetLocals restarts the numbering of local variables ($l1, $l2, ...).
+func (pc *PredCompiler) ResetLocals() { pc.locals = nil }
 
 type predEnv struct {
 	info *types.Info
@@ -288,8 +292,10 @@ func (pc *PredCompiler) CompileIn(f *FuncInfo, x ast.Expr) (*BExpr, error) {
 			}
 		}
 	}
-	pc.locals = map[types.Object]string{}
-	pc.nLocal = 0
+	if !pc.Sticky || pc.locals == nil {
+		pc.locals = map[types.Object]string{}
+		pc.nLocal = 0
+	}
 	return pc.compile(env, x, 0)
 }
 
